@@ -42,7 +42,7 @@ StructFam ==
   { ("1" :> Base("K", KVals(1, b, c, d, gg, l, m, o))) @@ ("2" :> Second(cls2, a2, c2, meta2)) :
       b \in (IF Small THEN {5} ELSE {5, 6}), c \in {<<"none">>, Ref2}, d \in {<<>>, <<<<"a", Ref2>>>>, <<<<"b", Ref2>>>>, <<<<"a", Ref2>>, <<"b", Ref2>>>>},
       gg \in {<<"none">>, Ref2}, l \in (IF Small THEN {<<>>, <<Ref2>>} ELSE {<<>>, <<Ref2>>, <<Ref2, Ref2>>}), m \in (IF Small THEN {0} ELSE {0, 1}), o \in (IF Small THEN {<<"int", 9>>, <<"none">>} ELSE {<<"int", 9>>, <<"none">>, <<"int", 1>>}),
-      cls2 \in {"K", "K2", "K2Old"}, a2 \in {0, 1}, c2 \in {<<"none">>, <<"cfg", "1">>, Ref2}, meta2 \in {"none", "true", "false"} }
+      cls2 \in {"K", "K2", "K2Old", "K2Older"}, a2 \in {0, 1}, c2 \in {<<"none">>, <<"cfg", "1">>, Ref2}, meta2 \in {"none", "true", "false"} }
 
 Fam == IF fam = "val" THEN ValFam ELSE StructFam
 
@@ -64,6 +64,6 @@ SigEncBijection ==
 (* a deprecated class hashes like its replacement (C20) *)
 DeprecatedSame ==
   fam = "struct" =>
-    \A x \in {y \in StructFam : y["2"].cls = "K2Old"} :
+    \A x \in {y \in StructFam : y["2"].cls \in {"K2Old", "K2Older"}} :       \* (K2Older: deprecated name of a deprecated name)
         EncOf([x EXCEPT !["2"].cls = "K2"]) = EncOf(x)
 =============================================================================
